@@ -89,6 +89,11 @@ func projectForm(f *Form, param int, pos bool) *Form {
 			return fTrue()
 		}
 		return projectForm(f.Sub[0], param, true)
+	case "over2":
+		if !pos {
+			return projectForm(f.Sub[1], param, true)
+		}
+		return projectForm(f.Sub[0], param, true)
 	case "atom":
 		if f.Atom.Kind != "prop" && f.Atom.Term.Key() != param {
 			return fTrue()
